@@ -97,7 +97,9 @@ def twin_groups(n, seed):
     rng = np.random.default_rng(seed)
     gs = []
     for i in range(n):
-        ps = family_spec(i, rng) if i % 3 else ("boxdomain", int(rng.integers(0, 2 ** 31)), 3, 1, {})
+        ps = family_spec(i, rng) if i % 3 else ("boxdomain", int(rng.integers(0, 2 ** 31)), 3, 1, {"interior": True})
+        if ps[0] == "boxdomain":
+            ps = (ps[0], ps[1], ps[2], ps[3], dict(ps[4], interior=True))   # smooth, well-scaled at the start (the statement's class)
         if ps[0] in ("infeasible", "unbounded"):
             ps = ("convex_qp", int(rng.integers(0, 2 ** 31)), 4, 2, {"quad_rows": True})
         pk = gen.random_params(rng, iteration_limit=12)
